@@ -876,3 +876,48 @@ func registerSyncIntrinsics() {
 		}
 	}
 }
+
+// sync.Pool: items put back are handed out again (LIFO); Put -> Get of the same item is a happens-before edge.
+type poolState struct {
+	items []Value
+	vcs   [][]int
+}
+
+func poolOf(c *Cell) *poolState {
+	st, _ := c.Ext.(*poolState)
+	if st == nil {
+		st = &poolState{}
+		c.Ext = st
+	}
+	return st
+}
+
+func init() {
+	intrinsics["(*sync.Pool).Get"] = func(g *G, fn *ssa.Function, args []Value) Value {
+		c := recvCell(g, args[0])
+		st := poolOf(c)
+		g.yield("pool")
+		if n := len(st.items); n > 0 {
+			it := st.items[n-1]
+			g.acquire(st.vcs[n-1])
+			st.items, st.vcs = st.items[:n-1], st.vcs[:n-1]
+			return it
+		}
+		// New is the last field of sync.Pool
+		newFn := g.m.load(c.Kids[len(c.Kids)-1])
+		if f, _ := newFn.(*FuncV); f != nil {
+			return g.callValue(f, nil)
+		}
+		return (*IfaceV)(nil)
+	}
+	intrinsics["(*sync.Pool).Put"] = func(g *G, fn *ssa.Function, args []Value) Value {
+		c := recvCell(g, args[0])
+		st := poolOf(c)
+		var vc []int
+		g.release(&vc)
+		st.items = append(st.items, args[1])
+		st.vcs = append(st.vcs, vc)
+		g.yield("pool")
+		return nil
+	}
+}
